@@ -26,7 +26,7 @@ Fixpoint err_run (env : list F) (e : expr) : R :=
                + u * Rabs (v a / v b)
   | Max a b => Rmax (err_run env a) (err_run env b)
   | If c t f => if bev env c then err_run env t else err_run env f
-  | Ln _ | Exp _ => 0
+  | Ln _ | Exp _ | Min _ _ | Abs _ => 0
   end.
 
 (* side conditions: standard model at every operation; denominators stay away from zero by more than their own
@@ -45,7 +45,7 @@ Fixpoint safe_run (env : list F) (e : expr) : Prop :=
   | Div a b => safe_run env a /\ safe_run env b /\ err_run env b < Rabs (v b) /\ ok2 (v a / v b)
   | Max a b => safe_run env a /\ safe_run env b
   | If c t f => bev env c = brval env c /\ (if bev env c then safe_run env t else safe_run env f)
-  | Ln _ | Exp _ => False
+  | Ln _ | Exp _ | Min _ _ | Abs _ => False
   end.
 
 Lemma err_run_nonneg env e : safe_run env e -> 0 <= err_run env e.
